@@ -161,7 +161,19 @@ Definition c06_ok : bool :=
    then Nat.eqb live_at_end 0 && outputs_closed ms else true).
 
 (* ---------- C07 ---------- *)
+(* fail-fast: once the error has been received the goroutine has returned and closed both channels - "closes both
+   channels without processing anything further", whether the input is closed or not: no receive blocks any more *)
+Fixpoint no_block_after_err (seen : bool) (l : list (move * outcome)) : bool :=
+  match l with
+  | [] => true
+  | (MRecv 1, OVal _) :: r => no_block_after_err true r
+  | (MRecv _, OBlocked) :: r => negb seen && no_block_after_err seen r
+  | _ :: r => no_block_after_err seen r
+  end.
+Definition failfast_stage : bool :=
+  match st with SMap _ _ false | SFMap _ _ false | SUnfold _ _ _ false | SEmit _ _ _ false => true | _ => false end.
 Definition c07_ok : bool :=
+  (if failfast_stage then no_block_after_err false ms else true) &&
   negb (crashed c) &&
   forallb prefix_ok (seq 0 nobs) &&
   (if cancelled_run then true else
